@@ -20,6 +20,12 @@
 (*                   pipe is released BEFORE the commands already started   *)
 (*                   are waited for (FALSE: it is still held while          *)
 (*                   Pipeline::popen() drops -- waits for -- them)          *)
+(*   ReleaseAllFix -- when a pipeline fails to start part-way, EVERY pipe end *)
+(*                   held for the commands already started is released      *)
+(*                   before any of them is waited for (FALSE: each Popen    *)
+(*                   releases its own ends right before its own wait, so a  *)
+(*                   later command blocked on its private stderr pipe keeps *)
+(*                   an earlier one from ever exiting)                      *)
 (* Children run one of a few programs (write more than the pipe holds,      *)
 (* read to end-of-file, copy stdin to stdout, exit).  A writer whose        *)
 (* reader is gone dies (SIGPIPE); a reader sees end-of-file when every      *)
@@ -33,7 +39,7 @@ EXTENDS Naturals, Sequences, FiniteSets, TLC
 
 CONSTANTS
   Cap, Amount,  \* pipe capacity, units a writer wants to write
-  CloseFirst, ReadPipeFix, ErrPipeFix
+  CloseFirst, ReadPipeFix, ErrPipeFix, ReleaseAllFix
 
 \* the configuration is chosen in the initial state and never changes (so that one TLC run covers all of them)
 VARIABLES
@@ -41,11 +47,11 @@ VARIABLES
   StdinPiped, StdoutPiped,
   Progs         \* <<program of command 0, program of command 1>> (the second is ignored for one command)
 cfgv == <<Kind, StdinPiped, StdoutPiped, Progs>>
-Kinds == {"popen", "write_adapter", "read_adapter", "vec", "vec_capture", "read_pipeline", "write_pipeline"}
+Kinds == {"popen", "write_adapter", "read_adapter", "vec", "vec_capture", "vec_ownerr", "read_pipeline", "write_pipeline"}
 \* "ewriter" writes to its standard error (the shared capture pipe of "vec_capture", nowhere otherwise)
 ProgSet == {"writer", "reader", "filter", "exit", "ewriter"}
 
-N == IF Kind \in {"vec", "vec_capture", "read_pipeline", "write_pipeline"} THEN 2 ELSE 1
+N == IF Kind \in {"vec", "vec_capture", "vec_ownerr", "read_pipeline", "write_pipeline"} THEN 2 ELSE 1
 Children == 0..(N - 1)
 \* pipes: "in" = parent -> child 0, "link" = child 0 -> child 1, "out" = last child -> parent
 \* "errp" = every child's stderr -> parent (Pipeline::capture / communicate only)
@@ -80,6 +86,11 @@ Plan ==
     [] Kind = "read_pipeline"  ->
          (IF ReadPipeFix THEN (IF StdinPiped THEN <<<<"close", "in", "w">>>> ELSE <<>>) \o <<<<"close", "out", "r">>>> ELSE <<>>)
          \o VecDrop
+    [] Kind = "vec_ownerr" ->
+         \* the Vec of started commands of a failed pipeline whose commands have stderr(Redirection::Pipe) of their own:
+         \* command i's Popen holds the read end of "errp" (here: only the LAST started command writes to it)
+         IF ReleaseAllFix THEN <<<<"close", "errp", "r">>>> \o VecDrop
+         ELSE PopenDrop(0) \o (IF CloseFirst THEN <<<<"close", "errp", "r">>, <<"wait", 1>>>> ELSE <<<<"wait", 1>>, <<"close", "errp", "r">>>>)
     [] Kind = "vec_capture" ->
          \* setup_communicate: `self.stdout(Pipe).popen()?` -- the Vec of started commands is dropped inside popen()
          \* while err_read is a local of the caller
@@ -95,15 +106,15 @@ Init ==
   \* command's stdout was handed to the command that failed and is closed with it.  (A Vec<Popen> the caller got
   \* from Pipeline::popen() and drops with the last stdout unread can still hang -- TLC shows it -- but there the
   \* caller can release the pipe end first; C12 makes no promise about that.)
-  /\ Kind \in {"vec", "vec_capture"} => ~StdoutPiped
+  /\ Kind \in {"vec", "vec_capture", "vec_ownerr"} => ~StdoutPiped
   /\ len = [p \in Pipes |-> 0]
   /\ wr = [p \in Pipes |-> CASE p = "in" -> IF StdinPiped THEN {Parent} ELSE {}
                              [] p = "link" -> IF N = 2 THEN {0} ELSE {}
-                             [] p = "errp" -> IF Kind = "vec_capture" THEN Children ELSE {}
+                             [] p = "errp" -> IF Kind = "vec_capture" THEN Children ELSE IF Kind = "vec_ownerr" THEN {1} ELSE {}
                              [] OTHER -> IF StdoutPiped THEN {Last} ELSE {}]
   /\ rd = [p \in Pipes |-> CASE p = "in" -> IF StdinPiped THEN {0} ELSE {}
                              [] p = "link" -> IF N = 2 THEN {1} ELSE {}
-                             [] p = "errp" -> IF Kind = "vec_capture" THEN {Parent} ELSE {}
+                             [] p = "errp" -> IF Kind \in {"vec_capture", "vec_ownerr"} THEN {Parent} ELSE {}
                              [] OTHER -> IF StdoutPiped THEN {Parent} ELSE {}]
   /\ cst = [i \in Children |-> "run"]
   /\ left = [i \in Children |-> IF Progs[i + 1] \in {"writer", "ewriter"} THEN Amount ELSE 0]
@@ -118,7 +129,7 @@ Die(i) ==   \* exit: every descriptor of the child closes
 
 ChildWriteErr(i) ==    \* one unit to stderr
   /\ cst[i] = "run" /\ Progs[i + 1] = "ewriter" /\ left[i] > 0
-  /\ IF Kind # "vec_capture"
+  /\ IF ~(Kind = "vec_capture" \/ (Kind = "vec_ownerr" /\ i = 1))
      THEN left' = [left EXCEPT ![i] = @ - 1] /\ UNCHANGED <<len, wr, rd, cst>>      \* inherited stderr: never blocks
      ELSE IF rd["errp"] = {}
      THEN Die(i) /\ UNCHANGED <<len, left>>                                        \* SIGPIPE
